@@ -33,6 +33,8 @@ def run(ctx):
         ("conversions._reduce_dimension", conv._reduce_dimension),
     ])
     pools, mdl, rng = env.pools, env.mdl, ctx.rng
+    if ctx.shard == 0:
+        witnesses(ctx, env, mon)
     n = ctx.scale(6000, 1_000_000)
     plans = set()
     modules_hit = {}
@@ -81,6 +83,27 @@ def run(ctx):
     # (b) synthetic, exactly consistent systems in fresh processes
     nsys = ctx.scale(40, 2000)
     synth.run_systems(ctx, nsys, mode="c04")
+
+
+def witnesses(ctx, env, mon):
+    """re-run the recorded witnesses of this property's findings (known and fixed): a
+    known one that still fails is reported as KNOWN-FINDING, a fixed one that fails again
+    is an ordinary violation (nothing is suppressed for it)"""
+    for e in ctx.known:
+        w = e.get("witness")
+        ops = list(w.values()) if isinstance(w, dict) else [w] if isinstance(w, list) else []
+        failed = False
+        for op in ops:
+            before = ctx.violation_count + sum(ctx.known_hits.values())
+            try:
+                (model.dec_mag(op[1]) * env.mdl.eval_real(op[2])).in_unit(env.mdl.eval_real(op[3]))
+            except Exception:
+                pass
+            ctx.count("witnesses_rerun")
+            if ctx.violation_count + sum(ctx.known_hits.values()) > before:
+                failed = True
+        if e.get("status") == "known":
+            ctx.witness(e["key"], failed)
 
 
 def finish(ctx):
